@@ -30,6 +30,14 @@ PASS_TIE = ("TRANSLATED tie of the recursive passes: tools/extract_pass.py turns
             "kernel-evaluated example or leaves the fragment). Not translated: calc() around the passes (validation, clone, the loop over the "
             "roots), property setters of Task. ")
 
+CALC_TIE = ("TRANSLATED tie of the pre-checks and of calc: tools/extract_calc.py turns _validate_graph_isolation, _leaves, _waits_for, _check_loops, "
+            "_check_loops_from_task, __check_no_end_dates_in_future and both calc methods into PyLite terms on every run; *_source_calc_forward / "
+            "*_source_calc_backward prove that running the translated calc - every call resolved by running the translated source of its callee, "
+            "down to calendar.py - is the model's forwardCalc / backwardCalc, errors included, unless the model ends in RecursionError; "
+            "C14_source_check_loops / _isolation / _waits_for do the same for the pre-checks. Library calls into task.py / wbs.py (tasks, children, "
+            "all_children, all_parents, clone) are primitives with the model's meaning. About 60 semantic edits tried: all break a lemma, a "
+            "kernel-evaluated example or leave the fragment. ")
+
 SCHED_TIE = ("The model (lean/PjVerif/Model/Sched.lean, Clone.lean) mirrors schedule.py statement by statement and is tied to the code by a "
              "correspondence stream (random WBSs with links on leaves and summaries, outside predecessors, milestones, fixed dates, 0-3 resources "
              "with weekly/dated/composed/bounded/dead calendars, scripted clock, both balance settings): ordered usage rows, dates and resource "
@@ -93,7 +101,7 @@ CLAIMED = {
               "of the end clamp). The full clock clause is false on the code: C06_clock_full_fails (a leaf without work left, project start not at "
               "midnight) and C06_clock_fixed_start_fails (a user-fixed start in the past: work is booked from the clock on, as C02/C04 demand) are "
               "kernel-checked counterexamples with both clocks not later than the project start (finding KF-S6-C06, replayed on every run). The "
-              "scheduler object is also re-used after other calcs, built under another clock, and its calendars / the WBS changed in between. " + SCHED_TIE),
+              "scheduler object is also re-used after other calcs, built under another clock, and its calendars / the WBS changed in between. " + CALC_TIE + SCHED_TIE),
         design='6 (C06)', technique='Lean 4 proof (clock-independence by simulation) + kernel-checked counterexample + differential correspondence with repeated calls'),
     'C08': dict(
         text=("PARTIAL. Proved for every input of the model: C08_noIdle_partial - with balancing on, every day from a leaf's release day (latest "
@@ -194,7 +202,7 @@ CLAIMED = {
               "TypeError, ZeroDivisionError or ValueError. C14_diagnoses_*: an outside predecessor lacking a date, a fixed end in the future "
               "(forward) and a dependency cycle closing through the hierarchy yield RuntimeError; C14_dead_resource_*: a resource without "
               "availability within the horizon yields RuntimeError. The implementation's real horizons (100000 days) are exercised by the stream "
-              "(dead calendars). " + SCHED_TIE),
+              "(dead calendars). " + CALC_TIE + SCHED_TIE),
         design='6 (C14)', technique='Lean 4 proof (DFS soundness, call-graph acyclicity, fuel sufficiency by pigeonhole) + differential correspondence'),
     'C05': dict(
         text=("Theorems over the same model and invariant (Inv = well-formed + truthful owners + unique ids + bounded): C05_step/C05_run - no "
